@@ -229,13 +229,21 @@ def conclude(ctx, mod, t0, evidence_path, args):
         for f in b.failures:
             matched = None
             for k in known:
-                if k.get("bounded") == b.name and re.search(k["witness_regex"], json.dumps(f, sort_keys=True, default=str)):
+                if k.get("bounded") != b.name:
+                    continue
+                if "predicate" in k:
+                    modname, fname = k["predicate"].split(":")
+                    if getattr(importlib.import_module(modname), fname)(f):
+                        matched = k
+                        break
+                elif re.search(k["witness_regex"], json.dumps(f, sort_keys=True, default=str)):
                     matched = k
                     break
             if matched is not None:
                 known_hits.append((matched, None, f))
             else:
-                violations.append((None, {"bounded": b.name, "bound": b.bound, "failure": f, "replayed": True}))
+                violations.append((None, {"bounded": b.name, "bound": b.bound, "failure": f,
+                                          "replayed": bool(f.get("replayed", True)) if isinstance(f, dict) else True}))
     seen = set()
     for k, vc, rep in known_hits:
         if k["id"] in seen:
